@@ -25,6 +25,7 @@ fn main() {
         "tt-hammer" => tt::hammer(&args),
         "search" => search::run(&args),
         "search-public" => search::public(&args),
+        "parse" => textreplay::parse(&args),
         "san" => textreplay::san(&args),
         "fen" => textreplay::fen(&args),
         "hashvar" => textreplay::hashvar(&args),
